@@ -109,11 +109,22 @@ VERIF_MSGS = (
     "panic", "could not show", "not satisfied", "could not be proven", "possible")
 
 
+# messages with which Verus reports a *failed proof obligation* (everything else is a rejection of the text)
+VERIF_RE = re.compile(
+    r"^(postcondition not satisfied|precondition not satisfied|assertion failed|assertion not satisfied|"
+    r"invariant not satisfied (before loop|at end of loop body)|loop ensures not satisfied|"
+    r"possible arithmetic underflow/overflow|possible division by zero|possible bit shift underflow/overflow|"
+    r"decreases not satisfied|could not prove termination|"
+    r"constructed value may fail to meet its declared type invariant|"
+    r"(function body check|while loop|for loop|loop): Resource limit|"
+    r"unable to prove assertion|cannot prove)", re.I)
+
+
 def _attribute(d, lines, gen_file):
     msg = d.message
     if "Resource limit (rlimit) exceeded" in msg or "resource limit" in msg.lower():
         d.kind = "rlimit"
-    is_verif = any(v in msg for v in VERIF_MSGS) and not getattr(d, "code", None)
+    is_verif = VERIF_RE.match(msg) is not None and not getattr(d, "code", None)
     # first: any span that lands on a labelled spec line
     def origin_of(sp):
         ln = sp["line_start"]
